@@ -17,7 +17,8 @@ PROPS["C05"] = dict(
          "to a directory, chunk table with a gap, swapped chunks, chunk first) and re-wrapped with 0..9000 bytes of trailing whitespace; "
          "both stores open it (db: up to 4 layers opened concurrently in ONE bolt file under a random open/close history, optionally with "
          "a failing neighbour layer) and are walked completely (RootID, GetAttr, GetChild, ForeachChild, GetOffset, OpenFile + "
-         "ChunkEntryForOffset at every chunk boundary +-1, ReadAt, OpenFileWithPreReader, Clone, Close, TOCDigest); "
+         "ChunkEntryForOffset at every chunk boundary +-1, ReadAt whole and from the middle, OpenFileWithPreReader read chunk by chunk as fs/reader does "
+         "with every callback chunk checked against the source bytes and its digest, Clone, Close, TOCDigest); "
          "non-trivial = accepted by memory with >= 4 nodes; distinct = distinct Coq case term",
     assumptions=[
         "JSON decoding (encoding/json in estargz vs goccy/go-json in the db store), gzip/tar framing of the TOC and time.Parse are not modelled: "
@@ -43,7 +44,7 @@ PROPS["C05"] = dict(
                "(covered per case by the correspondence check + store-vs-store oracle).",
     level_note="Both interpreters (estargz initFields + metadata/memory; db initNodes/writeAttr/readAttr/readChunks) are hand-modelled in "
                "coq/Model/TreeStores.v and evaluated inside Coq on every generated TOC against the views observed on the real stores. "
-               "Seven minimal repairs were made to /repo (patches/C05-fix-1..7), the model follows the repaired code.",
+               "Eight minimal repairs were made to /repo (patches/C05-fix-1..8), the model follows the repaired code.",
     technique="Coq proofs (induction over chunk tables / histories / TOCs) + vm_compute counterexamples; differential correspondence of two "
               "executable models against the two real stores; store-vs-store oracle on the real code",
     trusted=["metadata/memory + estargz.initFields and cmd/containerd-stargz-grpc/db are modelled by hand in coq/Model/TreeStores.v; tie = complete "
